@@ -682,6 +682,9 @@ func initExterns() {
 		s.assume(Ne(sym, Zero))
 		return Value{e.tokenTag(), sym}
 	})
+	invokeTable["(error).Error"] = func(e *Engine, s *State, x ssa.CallInstruction, recv Value, args []Value) {
+		e.bindResult(s, x, Value{App("err.msg", SStr, recv[0], recv[1])})
+	}
 	invokeTable["("+antlrPkg+".TerminalNode).GetSymbol"] = func(e *Engine, s *State, x ssa.CallInstruction, recv Value, args []Value) {
 		sym := App("tok.symbol", SInt, recv[1])
 		s.assume(Ne(sym, Zero))
@@ -691,10 +694,10 @@ func initExterns() {
 		e.bindResult(s, x, Value{App("tok.nodetext", SStr, recv[0], recv[1])})
 	}
 	// ---- cgo string conversion (identity on NUL-free text)
-	externTable["cmd._Cfunc_GoString"] = ret(func(e *Engine, s *State, x ssa.CallInstruction, args []Value) Value {
+	externTable[repoMod+"/cmd._Cfunc_GoString"] = ret(func(e *Engine, s *State, x ssa.CallInstruction, args []Value) Value {
 		return Value{App("cgo.GoString", SStr, args[0][0])}
 	})
-	externTable["cmd._Cfunc_CString"] = ret(func(e *Engine, s *State, x ssa.CallInstruction, args []Value) Value {
+	externTable[repoMod+"/cmd._Cfunc_CString"] = ret(func(e *Engine, s *State, x ssa.CallInstruction, args []Value) Value {
 		r := s.newAlloc("C.char")
 		s.sto("cgo.cstring", []*Term{r}, args[0][0])
 		return Value{r}
